@@ -8,6 +8,9 @@
 import Xsel.Eval
 import Xsel.Store
 import Xsel.WF
+import Xsel.Json
+import Xsel.Html
+import Xsel.Xml
 
 namespace Xsel
 
@@ -216,7 +219,96 @@ def decEv : Sexp → Option Ev
   | .list [.atom "close"] => some .close
   | _ => none
 
+def decJTok : Sexp → Option Json.Tok
+  | .atom "lb" => some .lbrace | .atom "rb" => some .rbrace
+  | .atom "lk" => some .lbrack | .atom "rk" => some .rbrack
+  | .atom "null" => some .null
+  | .list [.atom "s", s] => do pure (.str (← decStrS s))
+  | .list [.atom "n", .atom b] => do pure (.num (← decBits b))
+  | .list [.atom "b", .atom b] => some (.bool (b == "1"))
+  | _ => none
+
+mutual
+partial def decJVal : Sexp → Option JVal
+  | .list [.atom "jnull"] => some .null
+  | .list [.atom "jbool", .atom b] => some (.bool (b == "1"))
+  | .list [.atom "jnum", .atom b] => do pure (.num (← decBits b))
+  | .list [.atom "jstr", s] => do pure (.str (← decStrS s))
+  | .list (.atom "jarr" :: items) => do pure (.arr (← decJList items))
+  | .list (.atom "jobj" :: ms) => do pure (.obj (← decJMembers ms))
+  | _ => none
+partial def decJList : List Sexp → Option JList
+  | [] => some .nil
+  | v :: t => do pure (.cons (← decJVal v) (← decJList t))
+partial def decJMembers : List Sexp → Option JMembers
+  | [] => some .nil
+  | .list [k, v] :: t => do pure (.cons (← decStrS k) (← decJVal v) (← decJMembers t))
+  | _ => none
+end
+
+def decHType : String → Option Html.HType
+  | "err" => some .error | "text" => some .text | "doc" => some .document | "elem" => some .element
+  | "comment" => some .comment | "doctype" => some .doctype | "raw" => some .raw
+  | _ => none
+
+mutual
+partial def decHTree : Sexp → Option Html.HTree
+  | .list (.atom "h" :: .atom ty :: data :: .list (.atom "attrs" :: attrs) :: kids) => do
+    let as ← attrs.mapM (fun s => match s with
+      | .list [n, k, v] => do pure ({ ns := ← decStrS n, key := ← decStrS k, val := ← decStrS v } : Html.HAttr)
+      | _ => none)
+    pure (.node (← decHType ty) (← decStrS data) as (← decHForest kids))
+  | _ => none
+partial def decHForest : List Sexp → Option Html.HForest
+  | [] => some .nil
+  | t :: ts => do pure (.cons (← decHTree t) (← decHForest ts))
+end
+
+def decXTok : Sexp → Option Xml.Tok
+  | .list (.atom "st" :: .list [sp, lo] :: attrs) => do
+    let as ← attrs.mapM (fun s => match s with
+      | .list [s', l, v] => do pure ({ name := { space := ← decStrS s', loc := ← decStrS l }, val := ← decStrS v } : Xml.XAttr)
+      | _ => none)
+    pure (.start { space := ← decStrS sp, loc := ← decStrS lo } as)
+  | .list [.atom "en"] => some .stop
+  | .list [.atom "cd", s] => do pure (.chardata (← decStrS s))
+  | .list [.atom "cm", s] => do pure (.comment (← decStrS s))
+  | .list [.atom "pi", t, d] => do pure (.procinst (← decStrS t) (← decStrS d))
+  | .list [.atom "dir"] => some .directive
+  | _ => none
+
+mutual
+partial def decXNode : Sexp → Option Xml.XNode
+  | .list (.atom "xtext" :: segs) => do pure (.text (← segs.mapM decStrS))
+  | .list [.atom "xcomment", s] => do pure (.comment (← decStrS s))
+  | .list [.atom "xpi", t, d] => do pure (.pi (← decStrS t) (← decStrS d))
+  | .list (.atom "xelem" :: p :: l :: .list (.atom "decls" :: ds) :: .list (.atom "attrs" :: as) :: kids) => do
+    let decls ← ds.mapM (fun s => match s with
+      | .list [a, b] => do pure (← decStrS a, ← decStrS b)
+      | _ => none)
+    let attrs ← as.mapM (fun s => match s with
+      | .list [a, b, c] => do pure (← decPfx a, ← decStrS b, ← decStrS c)
+      | _ => none)
+    pure (.elem (← decPfx p) (← decStrS l) decls attrs (← decXNodes kids))
+  | _ => none
+partial def decXNodes : List Sexp → Option Xml.XNodes
+  | [] => some .nil
+  | t :: ts => do pure (.cons (← decXNode t) (← decXNodes ts))
+end
+
 /-! ### output -/
+
+def encEv : Ev → String
+  | .elem u l => s!"(elem {encStr u} {encStr l})"
+  | .ns p u => s!"(ns {encStr p} {encStr u})"
+  | .attr u l v => s!"(attr {encStr u} {encStr l} {encStr v})"
+  | .text v => s!"(text {encStr v})"
+  | .comment v => s!"(comment {encStr v})"
+  | .pi t v => s!"(pi {encStr t} {encStr v})"
+  | .close => "(close)"
+
+def encEvs (l : List Ev) : String := "(evs" ++ String.join (l.map (fun e => " " ++ encEv e)) ++ ")"
+
 
 def encVal : Val → String
   | .nodes l => "nodes" ++ String.join (l.map (fun i => " " ++ toString i))
